@@ -433,7 +433,8 @@ def run_lifecycle(ctx, focus):
         for fi, fx in enumerate(fxs):
             fx.prepared()
             fjson = fx.to_json()
-            d = depth if fi < (1 if ctx.quick else 4) else max(2, depth - 1)
+            # full depth on the fixtures where it is affordable (thorough: depth 4 is 3-8 million states on the other hand-made ones)
+            d = depth if (fi < 1 if ctx.quick else fi in (0, 3)) else max(2, depth - 1)
             r = ctx.tlc("Lifecycle", lifecycle_cfg(tlc, focus, d, True, quick=ctx.quick), note="fixture %s depth %d" % (fx.name, d),
                         files={"fixture.json": fjson}, env={"FIXTURE_FILE": "fixture.json"}, coverage=True, workers=8)
             if r.violation:
